@@ -5,7 +5,10 @@
     that Repro/DocCheck.agree runs against the implementation); hypotheses: Repro/DocInv.v
     ([doc_ok], [doc_wf]: evaluated by agree on every parsed document); Spec: Repro/DocSpec.v
     ([valid_value], [expected_read]: what DocCheck.holds demands of the implementation);
-    proofs: Repro/DocProofs.v, Repro/DocDup.v.
+    proofs: Repro/DocProofs.v, Repro/DocDup.v; for the fresh-parse theorems (section 9 on) also the
+    parser model of C01 (Repro/Token.v, Repro/Parse.v), the abstraction Repro/Abs.v ([abs_of_tree],
+    [py_reparse]: compared by DocCheck.agree with the implementation's parse of every case text and
+    with its fresh parse of every dump) and the proofs Repro/ParseDumpAbs*.v.
 
     Vocabulary.
       [split_doc d j = Some (a, p, b)]   paragraph [j] of the document is [p]; [a], [b] are the
@@ -31,6 +34,7 @@
 From Coq Require Import String.
 From Verif Require Import Repro.DocSpec.
 From Verif Require Import Lib.Base Lib.Dec Lib.PyStr Gen.PyChars Repro.Doc Repro.DocInv Repro.DocDup Repro.DocProofs.
+From Verif Require Import Repro.Abs Repro.ParseDumpAbs Repro.ParseDumpAbsEdits.
 
 (** 1. set_existing_local.  [p[k] = value] on a field that exists: every byte before the field's
        value — including the field's own comment lines and the name in its original spelling — and
@@ -197,12 +201,10 @@ Qed.
        * every other field reads as it did before;
        * the names of the paragraph and their order are as before, the original spelling of an
          existing name is kept, a new name is appended spelled as given.
-       FULL STATEMENT (not proved): the same for a fresh parse of [dump d'].  It needs the
-       printer/parser theorem [parse_dump_abs : doc_ok d -> abs (parse (dump d)) = d] for the parser
-       model of Repro/Parse.v, which is not proved.  Theorem 8 proves the paragraph level of it
-       (re-reading the edited paragraph's text as it stands in the dump); the whole-document fresh
-       parse is covered by the correspondence check only (DocCheck.holds judges the
-       implementation's own re-parse of every dump against the same [expected_read]). *)
+       This is the statement about the LIVE object, on the larger domain [doc_ok] (no demand on the
+       texts of the fields or on the free text between paragraphs).  The FULL STATEMENT — the same
+       for a fresh parse of [dump d'] — is theorem [C05_set_readback] in section 10 (hypotheses
+       [doc_wf] and [doc_canon]: documents as the parser produces them). *)
 Theorem C05_set_readback_partial :
   forall d j k value d',
     doc_ok d = true ->
@@ -237,7 +239,8 @@ Proof.
   - now apply (names_after_set p k p' v orig).
 Qed.
 
-(** the same for any setter, without the value: the stored field is read under every spelling *)
+(** the same for any setter, without the value: the stored field is read under every spelling
+    (live object; through a fresh parse: [C05_setter_readback]) *)
 Theorem C05_setter_readback_partial :
   forall d o d' k',
     doc_ok d = true ->
@@ -263,7 +266,8 @@ Proof.
   - intros Hk. now apply (others_unchanged o p p' k').
 Qed.
 
-(** after [del p[k]] the name is gone under every spelling; the other fields read as before *)
+(** after [del p[k]] the name is gone under every spelling; the other fields read as before
+    (live object; through a fresh parse: [C05_delete_readback]) *)
 Theorem C05_delete_readback_partial :
   forall d j k d' k',
     doc_ok d = true -> run_op d (ODel j k) = Ok d' -> plain_key k' = true ->
@@ -310,9 +314,9 @@ Qed.
        re-reads to exactly that paragraph's fields: same comments, names as spelled, value
        texts, order.  With theorem 6 this gives, for the edited paragraph as re-read from the
        dump: the new value under the original spelling, all other fields unchanged.
-       FULL STATEMENT (not proved): the same through a parse of the whole dump; what is missing is
-       the document level of the parser (splitting the dump into paragraphs at blank lines and
-       free comments, dropping emptied paragraphs), for which there is no model theorem. *)
+       This is the paragraph level, with [scan_para].  The FULL STATEMENT — a parse of the whole
+       dump by the parser model of C01 (splitting into paragraphs at blank lines and free comments,
+       dropping emptied paragraphs) — is [C05_reread] in section 10. *)
 Theorem C05_reread_partial :
   forall d ops,
     doc_wf d = true ->
@@ -346,6 +350,149 @@ Proof.
   - exact (paragraphs_reread _ _ _ _ _ Hwf' (split_doc_app a p' b)).
   - intros Hv. now apply Hval.
 Qed.
+
+(** 9. parse_dump_abs: the printer/parser theorem at document level.
+
+       [py_reparse text] = split [text] after every LF, run the parser model of C01 ([Token.tokenize],
+       the six grouping stages of [Parse.stages]) in accepting mode with the interpreter's character
+       tables, and abstract the element tree with [abs_of_tree] (paragraph elements -> [Para] with
+       comment / name / rest texts per key-value pair, whitespace tokens -> [Other OWs], comment
+       elements -> [Other OComment], anything else -> [Other OError]);  [py_reparse_strict] = the same
+       through the call the drivers make (error tokens rejected).
+       [doc_wf d]     (DocInv.v) no repeated names, colons, only the very end of the document may lack
+                      its newline, and every field is: complete '#' lines, a name of field-name
+                      characters, the rest of the field line from the colon on, then continuation
+                      lines (space/tab first, not blank) with '#' lines only between them.
+       [doc_canon d]  (Abs.v; the ADDED boolean hypothesis, evaluated by the correspondence check on
+                      every document the implementation parsed): the ITEM structure is one a parse
+                      produces — no error items; no paragraph without fields; a whitespace item is a
+                      non-empty run of whitespace-only lines, all terminated, or the single
+                      unterminated whitespace-only line at the very end; a comment item is a non-empty
+                      run of '#' lines and is followed by a whitespace item or the end (directly in
+                      front of a field it would be that field's comment); two whitespace items are
+                      adjacent only as "terminated run, unterminated last line"; two paragraphs are
+                      not adjacent.  Without it the statement is false ([Other OWs] with arbitrary
+                      text, two adjacent paragraphs, ... dump to texts that parse differently).
+       Conclusion: the fresh parse is [d] itself, up to the one thing the parser cannot see: the
+       class of the paragraph OBJECT — every paragraph comes back in the no-duplicates class with
+       exactly its fields ([plain_doc]; [para_fields] of both classes is the field list in document
+       order).  Nothing is rejected in either mode.  Covers documents with and without final
+       newline, comments before fields, inside values and between paragraphs. *)
+Theorem C05_parse_dump_abs :
+  forall d, doc_wf d = true -> doc_canon d = true ->
+    py_reparse (dump d) = Ok (plain_doc d) /\ py_reparse_strict (dump d) = Ok (plain_doc d).
+Proof. exact py_parse_dump_abs_wf. Qed.
+
+(** the same for the parser model itself, any pair of field-name classes that agree with the
+    ones the document model uses, any combination of the two acceptance flags *)
+Theorem C05_parse_dump_abs_model :
+  forall name_first name_rest,
+    (forall c, name_first c = Doc.name_first c) -> (forall c, name_rest c = Doc.name_char c) ->
+  forall d, doc_wf d = true -> doc_canon d = true ->
+  forall accept_errors accept_dups,
+    exists t, Parse.parse py_isspace name_first name_rest accept_errors accept_dups
+                (lines_of (dump d)) = Ok t
+              /\ abs_of_tree t = Ok (plain_doc d).
+Proof. exact parse_dump_abs_wf. Qed.
+
+(** ... and without the demand that names are not repeated (accepting mode): every paragraph
+    comes back in the class [from_kvpairs] chooses for its fields *)
+Theorem C05_parse_dump_abs_any_names :
+  forall d, forallb para_wf (paras d) = true -> lines_ok d = true -> doc_canon d = true ->
+    py_reparse (dump d) = Ok (norm_doc d).
+Proof. exact py_parse_dump_abs. Qed.
+
+(** 10. Read-back through a FRESH PARSE (the full statements of 6 and 8).
+
+    set_readback.  After a successful [p[k] = value] on a well-formed parser-shaped document, the
+    fresh parse of the new dump is: every item before and after the paragraph as it was, and the
+    paragraph with exactly the fields of the edited object ([new_for]: the old field replaced in
+    place, its name in the ORIGINAL spelling — or, for a new name, the field appended, spelled as
+    given); reading the re-parsed paragraph gives the new value under every case spelling of the
+    name, with or without index 0 — for every value deb822 can carry ([valid_value]) that is the
+    Spec's [expected_read value] — and what the paragraph held before under every other name;
+    names and order are unchanged. *)
+Theorem C05_set_readback :
+  forall d j k value d',
+    doc_wf d = true -> doc_canon d = true ->
+    run_op d (OSet j k value) = Ok d' ->
+    exists a p b p' v orig,
+      split_doc d j = Some (a, p, b) /\ d' = a ++ Para p' :: b /\
+      py_reparse (dump d') = Ok (plain_doc a ++ Para (PN (para_fields p')) :: plain_doc b) /\
+      new_for p k p' v orig /\
+      (forall k', name_eqb (key_name k') (key_name k) = true -> plain_key k' = true ->
+                  getitem (PN (para_fields p')) k' = Ok (value_str v)) /\
+      (valid_value value = true ->
+         f_rest v = COLON :: setitem_raw value /\ value_str v = expected_read value) /\
+      (forall k', plain_key k' = true -> name_eqb (key_name k') (key_name k) = false ->
+                  getitem (PN (para_fields p')) k' = getitem p k') /\
+      map f_name (para_fields p') =
+        match orig with
+        | Some _ => map f_name (para_fields p)
+        | None => map f_name (para_fields p) ++ [key_name k]
+        end.
+Proof. exact set_readback_full. Qed.
+
+(** any setter (set_field_to_simple_value / set_field_from_raw_string with any comment arguments) *)
+Theorem C05_setter_readback :
+  forall d o d' k',
+    doc_wf d = true -> doc_canon d = true ->
+    match o with ODel _ _ => false | _ => true end = true ->
+    run_op d o = Ok d' -> plain_key k' = true ->
+    exists a p b p' v orig,
+      split_doc d (op_para o) = Some (a, p, b) /\ d' = a ++ Para p' :: b /\
+      py_reparse (dump d') = Ok (plain_doc a ++ Para (PN (para_fields p')) :: plain_doc b) /\
+      new_for p (op_key o) p' v orig /\
+      (name_eqb (key_name k') (key_name (op_key o)) = true ->
+         getitem (PN (para_fields p')) k' = Ok (value_str v)) /\
+      (name_eqb (key_name k') (key_name (op_key o)) = false ->
+         getitem (PN (para_fields p')) k' = getitem p k').
+Proof. exact setter_readback_full. Qed.
+
+(** [del p[k]]: the fresh parse shows the paragraph without that field — the name is gone under
+    every spelling, every other field reads as before, all other items are as they were; when it
+    was the paragraph's last field the paragraph is gone: the dump and its fresh parse are those
+    of the items before and after it ([squash]: the blank lines on both sides are one run). *)
+Theorem C05_delete_readback :
+  forall d j k d',
+    doc_wf d = true -> doc_canon d = true -> run_op d (ODel j k) = Ok d' ->
+    exists a p b p',
+      split_doc d j = Some (a, p, b) /\ d' = a ++ Para p' :: b /\
+      py_reparse (dump d') = Ok (plain_doc (squash d')) /\
+      (para_fields p' <> [] ->
+         squash d' = d' /\
+         py_reparse (dump d') = Ok (plain_doc a ++ Para (PN (para_fields p')) :: plain_doc b)) /\
+      (para_fields p' = [] -> squash d' = squash (a ++ b) /\ dump d' = dump (a ++ b)) /\
+      (forall k', plain_key k' = true -> name_eqb (key_name k') (key_name k) = true ->
+                  getitem (PN (para_fields p')) k' = Err KeyError) /\
+      (forall k', plain_key k' = true -> name_eqb (key_name k') (key_name k) = false ->
+                  getitem (PN (para_fields p')) k' = getitem p k').
+Proof. exact delete_readback_full. Qed.
+
+(** reread.  For EVERY history of operations (accepted or rejected, sets and deletes, paragraphs
+    emptied or not) from a well-formed parser-shaped document: the fresh parse of the dump — in
+    both modes — is the document with emptied paragraphs dropped and blank-line runs that became
+    adjacent merged ([squash]); its paragraphs are exactly the non-empty paragraphs of the edited
+    object, in order, each with exactly its fields (comment, name as spelled, value text); where no
+    paragraph was emptied nothing is squashed. *)
+Theorem C05_reread :
+  forall d ops,
+    doc_wf d = true -> doc_canon d = true ->
+    doc_wf (run d ops) = true
+    /\ py_reparse (dump (run d ops)) = Ok (plain_doc (squash (run d ops)))
+    /\ py_reparse_strict (dump (run d ops)) = Ok (plain_doc (squash (run d ops)))
+    /\ paras (plain_doc (squash (run d ops)))
+       = map (fun p => PN (para_fields p)) (filter nonempty_para (paras (run d ops)))
+    /\ (doc_canon (run d ops) = true -> squash (run d ops) = run d ops).
+Proof. exact reread_history. Qed.
+
+(** the fresh parse of any well-formed document whose item structure is parser-shaped except that
+    paragraphs may be empty ([doc_shape]: what field edits can reach) *)
+Theorem C05_reparse_squash :
+  forall d, doc_wf d = true -> doc_shape d = true ->
+    py_reparse (dump d) = Ok (plain_doc (squash d))
+    /\ py_reparse_strict (dump d) = Ok (plain_doc (squash d)).
+Proof. exact reparse_squash. Qed.
 
 (** Non-vacuity: a document with a head comment, two paragraphs (a field with its own comment, a
     multi-line value with an inner comment line, tab continuation) and no final newline is valid;
@@ -383,6 +530,33 @@ Example C05_nonvacuous :
          = (s "A: 1" ++ nl ++ s "B: y" ++ nl ++ s "C: x" ++ nl)%list).
 Proof. vm_compute. repeat split. Qed.
 
+(** Non-vacuity of sections 9-10: the same document is parser-shaped; its dump parses back to it;
+    so does the dump after the history above; deleting both fields of the first paragraph leaves a
+    document whose fresh parse has one paragraph and the two blank lines as one run. *)
+Example C05_parse_dump_abs_nonvacuous :
+  let s (x : String.string) := Lib.Dec.dec x in
+  let nl := [LF] in
+  let d : doc :=
+    [ Other OComment (s "# head" ++ nl); Other OWs nl;
+      Para (PN [ mkF [] (s "Package") (s ": foo" ++ nl);
+                 mkF (s "# why" ++ nl) (s "Depends") (s ": a," ++ nl ++ s "# inner" ++ nl ++ [TAB] ++ s "b" ++ nl) ]);
+      Other OWs nl;
+      Para (PN [ mkF [] (s "Package") (s ": bar") ]) ]%list in
+  let ops :=
+    [ OSet 0 (KStr (s "DEPENDS")) (s "x");
+      OSet 1 (KStr (s "New")) (s "m" ++ nl ++ s " l2")%list;
+      ODel 0 (KStr (s "package")) ] in
+  let dels := [ ODel 0 (KStr (s "package")); ODel 0 (KStr (s "depends")) ] in
+  doc_wf d = true /\ doc_canon d = true
+  /\ py_reparse (dump d) = Ok (plain_doc d)
+  /\ doc_canon (run d ops) = true
+  /\ py_reparse (dump (run d ops)) = Ok (plain_doc (run d ops))
+  /\ doc_canon (run d dels) = false /\ doc_shape (run d dels) = true
+  /\ py_reparse (dump (run d dels))
+     = Ok [ Other OComment (s "# head" ++ nl); Other OWs (nl ++ nl);
+            Para (PN [ mkF [] (s "Package") (s ": bar") ]) ]%list.
+Proof. vm_compute. repeat split. Qed.
+
 Print Assumptions C05_set_existing_local.
 Print Assumptions C05_set_existing_local_any_setter.
 Print Assumptions C05_set_new_appends_own_lines.
@@ -397,3 +571,11 @@ Print Assumptions C05_delete_readback_partial.
 Print Assumptions C05_dup_class_index_consistent.
 Print Assumptions C05_reread_partial.
 Print Assumptions C05_set_reread_partial.
+Print Assumptions C05_parse_dump_abs.
+Print Assumptions C05_parse_dump_abs_model.
+Print Assumptions C05_parse_dump_abs_any_names.
+Print Assumptions C05_set_readback.
+Print Assumptions C05_setter_readback.
+Print Assumptions C05_delete_readback.
+Print Assumptions C05_reread.
+Print Assumptions C05_reparse_squash.
